@@ -53,11 +53,12 @@ VARIABLES sess,     \* [Key -> [ex, a, b, hasCur]]          Server.sessions
           ret,      \* [Call -> return class]
           peers,    \* [Peer -> [ex, listening, wants, hasCur]]  Server.peers
           lst, lusurp, lsent, lwch, lstale, lret,            \* listen calls
+          lx,       \* [LCall -> [nonce, repl]]  absolute listen nonce the call registered with; monitor: a newer call registered after it
           badDeliv, \* monitor: delivered while the recipient's announced epoch is not the current one
           dropFlag, \* [Call -> BOOLEAN] request stamped with the announced epoch dropped as stale
           badReq    \* monitor: a request stamped with a non-current epoch changed state, or an ack did not name the delivered message
 
-vars == <<sess, trk, cst, wch, prevOpen, ret, peers, lst, lusurp, lsent, lwch, lstale, lret, badDeliv, dropFlag, badReq>>
+vars == <<sess, trk, cst, wch, prevOpen, ret, peers, lst, lusurp, lsent, lwch, lstale, lret, lx, badDeliv, dropFlag, badReq>>
 
 Slot(k, isA) == IF isA THEN sess[k].a ELSE sess[k].b
 Local(c) == Slot(KeyOf(c), IsA(c))
@@ -65,7 +66,7 @@ Remote(c) == Slot(KeyOf(c), ~IsA(c))
 
 NoTrk == [recv |-> 0, recvSent |-> 0, recvClear |-> 0, outAcked |-> 0, recvEp |-> "cur"]   \* recvEp: monitor, epoch of the pending message
 NoSess == [ex |-> FALSE, a |-> None, b |-> None, hasCur |-> FALSE]
-NoPeer == [ex |-> FALSE, listening |-> FALSE, wants |-> {}, hasCur |-> FALSE]
+NoPeer == [ex |-> FALSE, listening |-> FALSE, wants |-> {}, hasCur |-> FALSE, nonce |-> 0]   \* nonce: absolute listenNonce of the tracker object
 
 Init ==
   /\ sess = [k \in Key |-> NoSess]
@@ -81,6 +82,7 @@ Init ==
   /\ lwch = [l \in LCall |-> "cur"]
   /\ lstale = [l \in LCall |-> FALSE]
   /\ lret = [l \in LCall |-> ""]
+  /\ lx = [l \in LCall |-> [nonce |-> 0, repl |-> FALSE]]
   /\ badDeliv = FALSE
   /\ dropFlag = [c \in Call |-> FALSE]
   /\ badReq = FALSE
@@ -113,7 +115,7 @@ SessionRegister(c) ==
         /\ wch' = [SessBcast(wch, k, s.hasCur) EXCEPT ![c] = IF BugWait THEN "cur" ELSE "closed"]
         /\ prevOpen' = Bump(prevOpen, k)
         /\ cst' = [cst EXCEPT ![c] = "reg"]
-  /\ UNCHANGED <<ret, lst, lusurp, lsent, lstale, lret, badDeliv, dropFlag, badReq>>
+  /\ UNCHANGED <<ret, lst, lusurp, lx, lsent, lstale, lret, badDeliv, dropFlag, badReq>>
 
 \* return from Session(): deferred cleanup
 Cleanup(c, why) ==
@@ -137,7 +139,7 @@ Cleanup(c, why) ==
         ELSE /\ UNCHANGED <<sess, wch, trk, peers, lwch, lstale>>
              \* mutation: a replaced call bumps the epoch when it exits, without a broadcast
              /\ prevOpen' = IF Mut = "bumpnoncur" THEN Bump(prevOpen, k) ELSE prevOpen
-     /\ UNCHANGED <<lst, lusurp, lsent, lret, badDeliv>>
+     /\ UNCHANGED <<lst, lusurp, lx, lsent, lret, badDeliv>>
 
 SessionCancel(c) == cst[c] = "reg" /\ Cleanup(c, "cancel") /\ UNCHANGED badReq
 
@@ -157,7 +159,7 @@ HandleSend(c, stamp, n, sigOK) ==
                   /\ UNCHANGED dropFlag
              ELSE /\ UNCHANGED <<trk, wch, sess, badReq>>
                   /\ dropFlag' = [dropFlag EXCEPT ![c] = @ \/ (stamp = "old" /\ prevOpen[c] = "old" /\ Local(c) = c)]
-          /\ UNCHANGED <<cst, ret, prevOpen, peers, lst, lusurp, lsent, lwch, lstale, lret, badDeliv>>
+          /\ UNCHANGED <<cst, ret, prevOpen, peers, lst, lusurp, lx, lsent, lwch, lstale, lret, badDeliv>>
 
 HandleAck(c, stamp, n) ==
   /\ cst[c] = "reg"
@@ -169,7 +171,7 @@ HandleAck(c, stamp, n) ==
                   /\ sess' = [sess EXCEPT ![k].hasCur = FALSE]
                   /\ badReq' = (badReq \/ stamp # "cur" \/ trk[c].recvSent # n)
              ELSE UNCHANGED <<trk, wch, sess, badReq>>
-          /\ UNCHANGED <<cst, ret, prevOpen, peers, lst, lusurp, lsent, lwch, lstale, lret, badDeliv, dropFlag>>
+          /\ UNCHANGED <<cst, ret, prevOpen, peers, lst, lusurp, lx, lsent, lwch, lstale, lret, badDeliv, dropFlag>>
 
 HandleClear(c, stamp, n) ==
   /\ cst[c] = "reg"
@@ -180,7 +182,7 @@ HandleClear(c, stamp, n) ==
                   ELSE IF trk[rem].recvSent = n THEN trk' = [trk EXCEPT ![rem].recvSent = 0, ![rem].recvClear = n] /\ badReq' = (badReq \/ stamp # "cur")
                   ELSE UNCHANGED <<trk, badReq>>
              ELSE UNCHANGED <<trk, badReq>>
-          /\ UNCHANGED <<sess, wch, cst, ret, prevOpen, peers, lst, lusurp, lsent, lwch, lstale, lret, badDeliv, dropFlag>>
+          /\ UNCHANGED <<sess, wch, cst, ret, prevOpen, peers, lst, lusurp, lx, lsent, lwch, lstale, lret, badDeliv, dropFlag>>
 
 \* what one loop iteration decides (shared with RelayTrace.tla, which also records the outputs)
 LoopUsurped(c) == Local(c) # c
@@ -202,12 +204,15 @@ LoopStep(c) ==
              /\ prevOpen' = [prevOpen EXCEPT ![c] = newAnn]
              /\ badDeliv' = (badDeliv \/ (deliver /\ (newAnn # "cur" \/ t.recvEp = "old")))
              /\ dropFlag' = [dropFlag EXCEPT ![c] = IF newAnn # prevOpen[c] THEN FALSE ELSE @]
-             /\ UNCHANGED <<cst, ret, peers, lst, lusurp, lsent, lwch, lstale, lret, badReq>>
+             /\ UNCHANGED <<cst, ret, peers, lst, lusurp, lx, lsent, lwch, lstale, lret, badReq>>
 
 ListenRegister(l) ==
   /\ lst[l] = "idle"
   /\ LET p == LPeer(l)  pp == peers[p] IN
-     /\ peers' = [peers EXCEPT ![p] = [pp EXCEPT !.ex = TRUE, !.listening = IF BugListen THEN @ ELSE TRUE, !.hasCur = IF pp.ex THEN FALSE ELSE @]]
+     /\ peers' = [peers EXCEPT ![p] = [pp EXCEPT !.ex = TRUE, !.listening = IF BugListen THEN @ ELSE TRUE, !.hasCur = IF pp.ex THEN FALSE ELSE @,
+                                                 !.nonce = IF pp.ex THEN @ + 1 ELSE 0]]
+     /\ lx' = [x \in LCall |-> IF x = l THEN [nonce |-> IF pp.ex THEN pp.nonce + 1 ELSE 0, repl |-> FALSE]
+                                ELSE IF LPeer(x) = p /\ lst[x] = "run" THEN [lx[x] EXCEPT !.repl = TRUE] ELSE lx[x]]
      /\ lwch' = [(IF pp.ex THEN PeerBcast(lwch, p, pp.hasCur) ELSE lwch) EXCEPT ![l] = "closed"]
      \* nonce++ when the tracker existed: every other non-stale running listen call on it is now usurped
      /\ lusurp' = [x \in LCall |-> IF x # l /\ LPeer(x) = p /\ pp.ex /\ lst[x] = "run" /\ ~lstale[x] THEN TRUE ELSE lusurp[x]]
@@ -216,8 +221,10 @@ ListenRegister(l) ==
 
 ListenCleanup(l, why) ==
   LET p == LPeer(l)  pp == peers[p]
-      mine == ~lstale[l] /\ pp.ex /\ ~lusurp[l]
-      ps2 == RelPeer([peers EXCEPT ![p] = [pp EXCEPT !.listening = FALSE, !.hasCur = FALSE]], p)
+      \* the call is still the current Listen of the tracker now registered for p: same tracker object and same nonce
+      \* (mutation "lexitnonce": the tracker identity is not compared, only the nonce)
+      mine == IF Mut = "lexitnonce" THEN pp.ex /\ pp.nonce = lx[l].nonce ELSE ~lstale[l] /\ pp.ex /\ ~lusurp[l]
+      ps2 == RelPeer([peers EXCEPT ![p] = [pp EXCEPT !.listening = FALSE, !.hasCur = FALSE, !.nonce = @ + 1]], p)
   IN /\ lst' = [lst EXCEPT ![l] = "exited"]
      /\ lret' = [lret EXCEPT ![l] = why]
      /\ IF mine THEN /\ peers' = ps2
@@ -226,7 +233,7 @@ ListenCleanup(l, why) ==
                ELSE UNCHANGED <<peers, lwch, lstale>>
      \* nonce++ on the shared tracker: any other running call on it no longer matches
      /\ lusurp' = [x \in LCall |-> IF mine /\ x # l /\ LPeer(x) = p /\ lst[x] = "run" /\ ~lstale[x] THEN TRUE ELSE lusurp[x]]
-     /\ UNCHANGED <<sess, trk, cst, wch, prevOpen, ret, lsent, badDeliv, dropFlag, badReq>>
+     /\ UNCHANGED <<sess, trk, cst, wch, prevOpen, ret, lsent, lx, badDeliv, dropFlag, badReq>>
 
 ListenCancel(l) == lst[l] = "run" /\ ListenCleanup(l, "cancel")
 
@@ -243,7 +250,7 @@ ListenStepRA(l, rm, ad) ==
         /\ lsent' = [lsent EXCEPT ![l] = (@ \ {rm}) \cup (IF ad = None THEN {} ELSE {ad})]
         /\ lwch' = [lwch EXCEPT ![l] = IF rm = None /\ ad = None THEN "cur" ELSE "closed"]
         /\ peers' = IF rm = None /\ ad = None /\ ~lstale[l] THEN [peers EXCEPT ![LPeer(l)].hasCur = TRUE] ELSE peers
-  /\ UNCHANGED <<sess, trk, cst, wch, prevOpen, ret, lst, lusurp, lstale, lret, badDeliv, dropFlag, badReq>>
+  /\ UNCHANGED <<sess, trk, cst, wch, prevOpen, ret, lst, lusurp, lx, lstale, lret, badDeliv, dropFlag, badReq>>
 
 ListenUsurpedExit(l) == lst[l] = "run" /\ lwch[l] = "closed" /\ lusurp[l] /\ ListenCleanup(l, "usurped")
 
@@ -282,6 +289,8 @@ OneActiveSession == \A c1, c2 \in Call : (c1 # c2 /\ Src(c1) = Src(c2) /\ Dst(c1
 OneActiveListen == \A x, y \in LCall : (x # y /\ LPeer(x) = LPeer(y) /\ lst[x] = "run" /\ lst[y] = "run") => (lwch[x] = "closed" \/ lwch[y] = "closed")
 UsurpedReturns == /\ \A c \in Call : (cst[c] = "exited" /\ ret[c] = "usurped") => TRUE
                   /\ \A c1, c2 \in Call : (c1 # c2 /\ Src(c1) = Src(c2) /\ Dst(c1) = Dst(c2) /\ cst[c1] = "reg" /\ cst[c2] = "reg" /\ Quiescent) => FALSE
+\* C25: a listen call ends with the replaced error only if a newer call for the peer registered after it
+UsurpedWasReplaced == \A l \in LCall : lret[l] = "usurped" => lx[l].repl
 NoLeftovers == ((\A c \in Call : cst[c] # "reg") /\ (\A l \in LCall : lst[l] # "run"))
                   => ((\A k \in Key : ~sess[k].ex) /\ (\A p \in Peer : ~peers[p].ex))
 \* C21: the mailbox fields of a tracker never name two different messages at once
@@ -292,5 +301,5 @@ SlotsRegistered == \A k \in Key : /\ sess[k].a # None => cst[sess[k].a] = "reg"
                                   /\ sess[k].ex <=> (sess[k].a # None \/ sess[k].b # None)
 WantsMatch == \A p \in Peer : peers[p].wants = {q \in Peer : \E c \in Call : cst[c] = "reg" /\ Local(c) = c /\ Src(c) = q /\ Dst(c) = p}
 
-View == <<sess, trk, cst, wch, prevOpen, peers, lst, lusurp, lsent, lwch, lstale, badDeliv, dropFlag, badReq>>
+View == <<sess, trk, cst, wch, prevOpen, peers, lst, lusurp, lsent, lwch, lstale, lx, badDeliv, dropFlag, badReq>>
 =============================================================================
